@@ -290,6 +290,22 @@ func sweepB() []Case {
 	for _, m := range []string{"0000", "5a49", "485a", "ffff"} {
 		add("wrong-magic", one(Frame{Magic: m, Kind: "raw", Len: -1, Plain: []Seg{{Rnd: 32, Seed: 1}}}, "probe"))
 	}
+	// the node writes, the remote stalls after taking part of the frame
+	for _, size := range []int{12, 4000, 300000} {
+		for _, took := range []int{0, 1, 2, 5, 6, 7, 16, 22, 23, 100, 3000, 100000, size + 100} {
+			if took > size+100 {
+				continue
+			}
+			k := "node-write-remote-takes-part-of-the-frame"
+			if took == 0 {
+				k = "node-write-remote-takes-nothing"
+			} else if took >= size+100 {
+				k = "node-write-remote-takes-everything"
+			}
+			w := WireScript{Cut: -1, End: "close", NodeWrite: size, RemoteReads: took}
+			out = append(out, Case{S: "b", Kind: k, Wire: &w})
+		}
+	}
 	// declared length classes around the cap: header and a little data only
 	for _, n := range []int64{frameCap - 16, frameCap - 1, frameCap, frameCap + 1, frameCap + 16, overCapLen, 1 << 30, 1<<31 - 1, 1 << 31, 1<<32 - 1} {
 		add("declared-"+sizeName(n)+"-little-data", one(Frame{Kind: "raw", Len: n, Plain: []Seg{{Rnd: 1024, Seed: 2}}}, "hold"))
